@@ -59,6 +59,8 @@ FORMS = {
     # a pyins table addressed by column LABELS: the same table with its columns in another
     # order, or with an extra leading column (as read from a log file)
     'table': ['ndarray', 'cols_permuted', 'extra_leading_col', 'cols_reversed'],
+    # a Pva Series addressed by LABELS: the same state with its labels in another order
+    'pva': ['ndarray', 'labels_permuted', 'labels_reversed'],
     # an integer seed: Python int or a numpy integer (an element of an array of seeds)
     'seed': ['ndarray', 'np_int64', 'np_int32'],
 }
@@ -69,6 +71,13 @@ def apply_form(value, kind, form, cols=None, index=None):
         return value
     if kind == 'seed':
         return np.int64(value) if form == 'np_int64' else np.int32(value)
+    if kind == 'pva':
+        ser = value
+        labels = list(ser.index)
+        if form == 'labels_reversed':
+            return ser[labels[::-1]].copy()
+        k = max(1, len(labels) // 3)
+        return ser[labels[k:] + labels[:k]].copy()
     if kind == 'table':
         df = value
         if form == 'cols_reversed':
@@ -423,7 +432,7 @@ def _(cx, r):
     if form == 2:
         return Call('transform.compute_state_difference[Series]',
                     transform.compute_state_difference,
-                    [Arg(cx.pva(r), 'plain'), Arg(cx.pva(r), 'plain')])
+                    [Arg(cx.pva(r), 'pva'), Arg(cx.pva(r), 'pva')])
     cols = VEL_COLS + RPH_COLS
     return Call('transform.compute_state_difference[subset]',
                 transform.compute_state_difference,
@@ -556,8 +565,16 @@ def _(cx, r):
 @template('kalman.correct')
 def _(cx, r):
     n, m = int(r.integers(1, 8)), int(r.integers(1, 4))
+    P = _psd(r, n)
+    u = r.random()
+    if u < 0.4:
+        # a propagated covariance: symmetric only up to rounding
+        Phi = np.eye(n) + 0.1 * r.standard_normal((n, n))
+        P = Phi @ P @ Phi.T + 0.01 * _psd(r, n)
+    elif u < 0.6:
+        P = P * (1.0 + 1e-10 * r.standard_normal((n, n)))      # sloppy symmetry
     return Call('kalman.correct', kalman.correct,
-                [Arg(r.standard_normal(n), 'plain'), Arg(_psd(r, n), 'plain'),
+                [Arg(r.standard_normal(n), 'plain'), Arg(P, 'plain'),
                  Arg(r.standard_normal(m), 'plain'), Arg(r.standard_normal((m, n)), 'plain'),
                  Arg(_psd(r, m), 'plain')])
 
@@ -576,7 +593,7 @@ def _(cx, r):
 @template('strapdown.Integrator')
 def _(cx, r):
     return Call('strapdown.Integrator', lambda *a: strapdown.Integrator(*a),
-                [Arg(cx.pva(r), 'plain'), Arg(bool(r.random() < 0.5))],
+                [Arg(cx.pva(r), 'pva'), Arg(bool(r.random() < 0.5))],
                 out=('integrator',))
 
 
@@ -617,7 +634,7 @@ def _(cx, r):
     p.name = it.get_time()
     return Call('strapdown.Integrator.set_pva',
                 lambda s, p_: (s.set_pva(p_), s.get_pva())[1],
-                [Arg(it, 'self'), Arg(p, 'plain')])
+                [Arg(it, 'self'), Arg(p, 'pva')], schema=('pva_values',))
 
 
 # ---------------------------------------------------------- error_model
@@ -647,7 +664,7 @@ def _(cx, r):
 def _(cx, r):
     return Call('error_model.InsErrorModel.transform_to_internal',
                 lambda s, t: s.transform_to_internal(t),
-                [Arg(_err_model(cx, r), 'selfpure'), Arg(cx.pva(r), 'plain')])
+                [Arg(_err_model(cx, r), 'selfpure'), Arg(cx.pva(r), 'pva')])
 
 
 @template('error_model.InsErrorModel.correct_pva')
@@ -657,7 +674,7 @@ def _(cx, r):
                                                   1.0, 1e-3)
     return Call('error_model.InsErrorModel.correct_pva',
                 lambda s, p, x_: s.correct_pva(p, x_),
-                [Arg(m, 'selfpure'), Arg(cx.pva(r), 'plain'), Arg(x, 'plain')],
+                [Arg(m, 'selfpure'), Arg(cx.pva(r), 'pva'), Arg(x, 'plain')],
                 out=('pva_unnamed',), schema=('pva',))
 
 
@@ -666,7 +683,7 @@ def _(cx, r):
     lever = cx.vec3(r) if r.random() < 0.6 else None
     return Call('error_model.InsErrorModel.position_error_jacobian',
                 lambda s, p, l: s.position_error_jacobian(p, l),
-                [Arg(_err_model(cx, r), 'selfpure'), Arg(cx.pva(r), 'plain'),
+                [Arg(_err_model(cx, r), 'selfpure'), Arg(cx.pva(r), 'pva'),
                  Arg(lever, 'vec3' if lever is not None else 'plain')])
 
 
@@ -676,7 +693,7 @@ def _(cx, r):
     p = _pva_with_rates(cx, r) if r.random() < 0.6 else cx.pva(r)
     return Call('error_model.InsErrorModel.ned_velocity_error_jacobian',
                 lambda s, p_, l: s.ned_velocity_error_jacobian(p_, l),
-                [Arg(_err_model(cx, r), 'selfpure'), Arg(p, 'plain'),
+                [Arg(_err_model(cx, r), 'selfpure'), Arg(p, 'pva'),
                  Arg(lever, 'vec3' if lever is not None else 'plain')])
 
 
@@ -684,7 +701,7 @@ def _(cx, r):
 def _(cx, r):
     return Call('error_model.InsErrorModel.body_velocity_error_jacobian',
                 lambda s, p: s.body_velocity_error_jacobian(p),
-                [Arg(_err_model(cx, r), 'selfpure'), Arg(cx.pva(r), 'plain')])
+                [Arg(_err_model(cx, r), 'selfpure'), Arg(cx.pva(r), 'pva')])
 
 
 @template('error_model.propagate_errors')
@@ -745,7 +762,7 @@ def _(cx, r):
     p = _pva_with_rates(cx, r) if r.random() < 0.5 else cx.pva(r)
     return Call(f'measurements.{type(mo).__name__}.compute_matrices',
                 lambda s, t_, p_, e_: s.compute_matrices(t_, p_, e_),
-                [Arg(mo, 'selfpure'), Arg(t), Arg(p, 'plain'), Arg(em_, 'plain')])
+                [Arg(mo, 'selfpure'), Arg(t), Arg(p, 'pva'), Arg(em_, 'plain')])
 
 
 @template('measurements.Measurement')
@@ -827,9 +844,9 @@ def _(cx, r):
 @template('inertial_sensor.Parameters')
 def _(cx, r):
     tr = np.eye(3) + r.standard_normal((3, 3)) * 1e-3 if r.random() < 0.6 else None
-    bias = cx.vec3(r, 1e-3) if r.random() < 0.7 else None
+    bias = cx.vec3(r, 1e-3) * (r.random(3) < 0.7) if r.random() < 0.7 else None
     noise = [None, 1e-4, cx.vec3(r, 1e-4) ** 2][int(r.integers(3))]
-    walk = [None, 1e-6, cx.vec3(r, 1e-5) ** 2][int(r.integers(3))]
+    walk = [None, 1e-6, cx.vec3(r, 1e-5) ** 2 * (r.random(3) < 0.6)][int(r.integers(3))]
     return Call('inertial_sensor.Parameters', lambda *a: inertial_sensor.Parameters(*a),
                 [Arg(tr, 'm33' if tr is not None else 'plain'),
                  Arg(bias, 'vec3' if bias is not None else 'plain'),
@@ -849,6 +866,13 @@ def _(cx, r):
 def _parameters(cx, r):
     if cx.pool.get('parameters') and r.random() < 0.6:
         return cx.pick(r, 'parameters')
+    u = r.random()
+    if u < 0.3:
+        # walk on axes without a constant bias, bias on a subset of axes
+        bias = cx.vec3(r, 1e-3) * (r.random(3) < 0.5)
+        walk = 1e-6 * (r.random(3) < 0.6)
+        return inertial_sensor.Parameters(bias=bias, noise=1e-4, bias_walk=walk,
+                                          rng=cx.seed(r))
     return inertial_sensor.Parameters(bias=cx.vec3(r, 1e-3), noise=1e-4, bias_walk=1e-6,
                                       rng=cx.seed(r))
 
@@ -857,10 +881,28 @@ def _parameters(cx, r):
 def _(cx, r):
     imu = cx.pick(r, 'imu')
     cols = GYRO_COLS if r.random() < 0.5 else ACCEL_COLS
+    par = _parameters(cx, r)
+
+    def frame_schema(frame, par=par, index=np.asarray(imu.index)):
+        # "columns containing non-zero parameters of IMU in the format consistent with
+        #  pyins.filters results", indexed by time
+        want = [f"bias_{'xyz'[a]}" for a in range(3)
+                if par.bias[a] != 0 or par.bias_walk[a] != 0]
+        want += [f"sm_{'xyz'[i]}{'xyz'[j]}" for i in range(3) for j in range(3)
+                 if par.transform[i, j] != (1.0 if i == j else 0.0)]
+        if not isinstance(frame, pd.DataFrame):
+            return f"Parameters.data_frame is {type(frame).__name__}"
+        if list(frame.columns) != want:
+            return (f"Parameters.data_frame columns {list(frame.columns)}; the non-zero "
+                    f"parameters are {want}")
+        if len(frame.index) != len(index) or not (np.asarray(frame.index) == index).all():
+            return "Parameters.data_frame is not indexed by the readings' times"
+        return None
     return Call('inertial_sensor.Parameters.apply',
                 lambda s, rd, st: (s.apply(rd, st), s.data_frame),
-                [Arg(_parameters(cx, r), 'self'), Arg(imu[cols], 'plain'),
-                 Arg(['rate', 'increment'][int(r.integers(2))])])
+                [Arg(par, 'self'), Arg(imu[cols], 'plain'),
+                 Arg(['rate', 'increment'][int(r.integers(2))])],
+                schema=(None, frame_schema))
 
 
 @template('inertial_sensor.apply_imu_parameters')
@@ -956,7 +998,7 @@ def _(cx, r):
         err = pd.Series(r.standard_normal(9) * [5, 5, 5, .5, .5, .5, .1, .1, .3],
                         index=TRAJECTORY_ERROR_COLS)
     return Call('sim.perturb_pva', sim.perturb_pva,
-                [Arg(cx.pva(r), 'plain'), Arg(err, 'plain')], out=('pva',),
+                [Arg(cx.pva(r), 'pva'), Arg(err, 'plain')], out=('pva',),
                 schema=('pva',))
 
 
@@ -1020,7 +1062,7 @@ def _(cx, r):
     init = traj.iloc[0].copy()
     return Call('filters.run_feedback_filter',
                 lambda *a, **k: dict(filters.run_feedback_filter(*a, **k)),
-                [Arg(init, 'plain')] + [Arg(s) for s in sds] + [Arg(inc, 'table')], kw,
+                [Arg(init, 'pva')] + [Arg(s) for s in sds] + [Arg(inc, 'table')], kw,
                 schema=('filter_result',))
 
 
@@ -1043,10 +1085,13 @@ SCHEMAS = {
 }
 
 
-def check_schema(kind, value, expect_index=None):
-    """Return a problem string or None."""
+def check_schema(kind, value, expect_index=None, ordered=True):
+    """Return a problem string or None.  ``ordered=False``: the call was made with a
+    label-permuted input, so only the SET of columns / labels is demanded."""
     if kind is None:
         return None
+    if callable(kind):
+        return kind(value)
     if kind in SCHEMAS:
         cols = SCHEMAS[kind]
         if not isinstance(value, pd.DataFrame):
@@ -1055,7 +1100,7 @@ def check_schema(kind, value, expect_index=None):
         if kind == 'traj_error':
             if not set(got) <= set(cols) or got != [c for c in cols if c in got]:
                 return f"{kind}: columns {got}"
-        elif got != cols:
+        elif (got != cols) if ordered else (sorted(got) != sorted(cols)):
             return f"{kind}: columns {got}, documented {cols}"
         idx = np.asarray(value.index)
         if idx.dtype.kind not in 'fiu':
@@ -1069,9 +1114,12 @@ def check_schema(kind, value, expect_index=None):
         if not all(value.dtypes == float):
             return f"{kind}: non-float columns {dict(value.dtypes)}"
         return None
-    if kind == 'pva':
-        if not isinstance(value, pd.Series) or list(value.index)[:9] != TRAJECTORY_COLS:
-            return f"pva: index {list(getattr(value, 'index', []))}"
+    if kind in ('pva', 'pva_values'):
+        if not isinstance(value, pd.Series):
+            return f"pva: {type(value).__name__}"
+        labels = list(value.index)
+        if not set(TRAJECTORY_COLS) <= set(labels) or len(set(labels)) != len(labels):
+            return f"pva: index {labels}"
         return None
     if kind == 'pva_error':
         if not isinstance(value, pd.Series) or list(value.index) != TRAJECTORY_ERROR_COLS:
@@ -1082,7 +1130,7 @@ def check_schema(kind, value, expect_index=None):
                 'innovations']
         if sorted(value.keys()) != sorted(want):
             return f"filter result fields {sorted(value.keys())}"
-        p = check_schema('trajectory', value['trajectory'])
+        p = check_schema('trajectory', value['trajectory'], ordered=ordered)
         if p:
             return p
         if list(value['trajectory_sd'].columns) != TRAJECTORY_ERROR_COLS:
